@@ -225,3 +225,33 @@ func MessageTwoFields(b buffer.Buffer, t1, t2 uint16, v1 int32, v2 int64) (int32
 	r2, _, err := decode.DecodeInt64(m.FieldRaw(t2))
 	return r1, r2, err
 }
+
+// ListTwoElements: a list of an int32 and an int64 element; every element is found at its index.
+func ListTwoElements(b buffer.Buffer, v1 int32, v2 int64) (int32, int64, int, error) {
+	b.Reset()
+	n1, err := encode.EncodeInt32(b, v1)
+	if err != nil {
+		return 0, 0, 0, err
+	}
+	n2, err := encode.EncodeInt64(b, v2)
+	if err != nil {
+		return 0, 0, 0, err
+	}
+	table := []format.ListElement{{Offset: uint32(n1)}, {Offset: uint32(n1 + n2)}}
+	if _, err := encode.EncodeListTable(b, n1+n2, table); err != nil {
+		return 0, 0, 0, err
+	}
+	l, err := types.OpenListErr(b.Bytes())
+	if err != nil {
+		return 0, 0, 0, err
+	}
+	if l.Len() != 2 {
+		return 0, 0, l.Len(), nil
+	}
+	r1, _, err := decode.DecodeInt32(l.GetBytes(0))
+	if err != nil {
+		return 0, 0, 2, err
+	}
+	r2, _, err := decode.DecodeInt64(l.GetBytes(1))
+	return r1, r2, 2, err
+}
